@@ -348,6 +348,14 @@ class FundOracle:
                 b = m.get_fundamental_price(s)
                 if a != b:
                     self.mon.viol("C12", "history_changed", {"market": i, "time": s, "market_recorded": b, "fundamentals_object_reads": a})
+        # the list getter of the fundamentals object agrees with the single getter
+        ts = sorted({t % now for t in op.get("times", [])} - self.change_times)
+        if ts:
+            for i, m in enumerate(self.sim.markets):
+                lst = self.f.get_fundamental_prices(market_id=m.market_id, times=ts)
+                one = [m.get_fundamental_price(t) for t in ts]
+                if list(lst) != one:
+                    self.mon.viol("C12", "history_changed", {"market": i, "times": ts, "list_getter": list(lst), "recorded": one})
 
     def check_moments(self):
         """supplementary sample-moment check with the real generator: fixed sample size, 7-sigma bounds
